@@ -239,6 +239,8 @@ type Node struct {
 	LastHash []byte
 	Header   tmproto.Header // header of the block in progress
 	opened   int
+	LastReq  abci.RequestBeginBlock
+	imported *Node // a chain started from this node's exported genesis (C19), if any
 }
 
 func openApp(db dbm.DB) *app.Haqq {
@@ -320,8 +322,17 @@ func (n *Node) BeginBlock(b BlockIn) abci.ResponseBeginBlock {
 			Validator: abci.Validator{Address: v.ConsAddr(), Power: val.ConsensusPower(sdk.DefaultPowerReduction)},
 			Height:    n.Height, Time: n.Time.Add(-time.Second), TotalVotingPower: 0})
 	}
-	return n.App.BeginBlock(abci.RequestBeginBlock{Header: n.Header, LastCommitInfo: abci.CommitInfo{Votes: votes},
-		ByzantineValidators: byz})
+	n.LastReq = abci.RequestBeginBlock{Header: n.Header, LastCommitInfo: abci.CommitInfo{Votes: votes}, ByzantineValidators: byz}
+	return n.App.BeginBlock(n.LastReq)
+}
+
+// BeginBlockWith starts the block with a request built by another replica of the same chain
+// (same consensus input), e.g. for a chain that was just initialised from an exported genesis.
+func (n *Node) BeginBlockWith(req abci.RequestBeginBlock) abci.ResponseBeginBlock {
+	n.Time = req.Header.Time
+	n.Header = req.Header
+	n.LastReq = req
+	return n.App.BeginBlock(req)
 }
 
 // Ctx is a context on the deliver state of the block in progress.
